@@ -265,7 +265,9 @@ def run_case(case, gen_rng=None):
                                   'expected': 'containers written in argument position are rebuilt for every call',
                                   'observed': al, 'op_index': len(trace) - 1})
             exp = cold.outcome(i, j, path_star, regs, glommer)
-            if exp != out:
+            if exp != out and canon.mentions_recursion([exp, out]):
+                st('recursion_not_comparable')
+            elif exp != out:
                 viols.append({'clause': 'cold-equivalence', 'sig': 'cold-equivalence/' + opname,
                               'expected': exp, 'observed': out, 'op_index': len(trace) - 1})
             key = (i, j)
@@ -376,7 +378,7 @@ def run_case(case, gen_rng=None):
                 out = _norm_task(out, idx)
                 exp = cold.outcome(x, x, path_star, regs)
                 trace.append(['pair', x, idx, simrun.jhash(out)])
-                if exp != out:
+                if exp != out and not canon.mentions_recursion([exp, out]):
                     viols.append({'clause': 'cold-equivalence', 'sig': 'cold-equivalence/pair',
                                   'expected': exp, 'observed': out, 'op_index': len(trace) - 1})
                 after = canon.snapshot(pool[x]['target'], extra_roots=[pool[x]['spec']])
@@ -387,7 +389,8 @@ def run_case(case, gen_rng=None):
         fresh = fresh_interpreter_outcomes({kk: case[kk] for kk in ('knobs', 'pool', 'shared', 'seed')}, cold.jobs)
         stats['fresh_interpreter_refs'] = len(cold.jobs)
         for jb in cold.jobs:
-            if fresh.get(jb['key']) != cold.memo[jb['key']]:
+            if fresh.get(jb['key']) != cold.memo[jb['key']] and not canon.mentions_recursion(
+                    [fresh.get(jb['key']), cold.memo[jb['key']]]):
                 viols.append({'clause': 'cold-equivalence', 'sig': 'cold-equivalence/fresh-interpreter',
                               'expected': fresh.get(jb['key']), 'observed': cold.memo[jb['key']],
                               'job': {kk: jb[kk] for kk in ('i', 'j', 'path_star')}})
